@@ -104,9 +104,9 @@ def a_configs(tier, seed):
             c2 = dict(c)
             if src in ("c03", "c04") and c2["brackets"] > 1:
                 c2["free_brackets"] = True   # brackets are drawn by the scheduler's own seeded generator here
-            out.append(dict(src=src, cfg=c2, max_states=1500 if tier == "quick" else 20000))
+            out.append(dict(src=src, cfg=c2, max_states=1500 if tier == "quick" else 5000))
     # PBT with a population large enough for a real choice among the upper quantile
-    out.append(dict(src="generic", max_states=2500 if tier == "quick" else 30000,
+    out.append(dict(src="generic", max_states=2500 if tier == "quick" else 8000,
                     cfg=dict(kind="pbt", seed=seed, R=3, W=4, T=6, F=0, mode="min", kw=dict(population_size=4))))
     for kind in ["pbt", "dehb", "median", "rea", "fifo-random", "fifo-grid", "hb-rush-prom", "hb-cost", "fifo-bo"]:
         for W in (2, 3):
@@ -115,7 +115,7 @@ def a_configs(tier, seed):
             for mode in ("min", "max"):
                 if tier == "quick" and mode == "max" and kind not in ("pbt", "dehb"):
                     continue
-                out.append(dict(src="generic", max_states=1500 if tier == "quick" else 20000,
+                out.append(dict(src="generic", max_states=1500 if tier == "quick" else 5000,
                                 cfg=dict(kind=kind, seed=seed, R=3, W=W, T=4 if kind != "rea" else 5, F=1, mode=mode)))
     return out
 
